@@ -157,7 +157,23 @@ def run_property(prop, tier, rules, explanation, not_decided, technique):
                      "the current tree; %d apply, %d of those make this check fire" % (
                          len(res), sum(1 for w in res if w["applies"]),
                          sum(1 for w in res if w["applies"] and w["fires"])))
+        noisy = []
+        if tier == "thorough" and not os.environ.get("TLSVERIF_NO_WITNESS"):
+            from .witness import replay_controls
+            cres = replay_controls(prop, ctx.index.repo)
+            ctx.info["negative_controls"] = cres
+            noisy = [w for w in cres if w["applies"] and w.get("exit") != 0]
+            ctx.note("thorough tier: %d behaviour-preserving refactorings of benign/ re-applied to a scratch copy; "
+                     "%d apply, %d of those leave this check silent" % (
+                         len(cres), sum(1 for w in cres if w["applies"]),
+                         sum(1 for w in cres if w["applies"] and w.get("exit") == 0)))
         code = finish(ctx, explanation, not_decided, technique, t0, seed, ev_path)
+        if noisy and code == 0:
+            for w in noisy:
+                print("ANALYSIS-ERROR property=%s negative control %s (%s) applies to the current tree and makes "
+                      "the check report (exit %s) although it preserves behaviour: a rule became brittle and must "
+                      "be re-confirmed" % (prop, w["seed"], w["title"][:80], w.get("exit")))
+            return 2
         if lost and code == 0:
             for w in lost:
                 print("ANALYSIS-ERROR property=%s witness %s (%s) applies to the current tree but no longer makes "
